@@ -8,6 +8,7 @@ mod common;
 mod driver;
 mod dgen;
 mod form;
+mod fsx;
 mod model;
 mod sdk;
 mod props;
